@@ -14,6 +14,7 @@ package main
 import (
 	"fmt"
 	"go/types"
+	"sort"
 	"strings"
 )
 
@@ -97,7 +98,18 @@ func (c *FuncCtx) merge2(a, b *State) *State {
 	}
 	// variables
 	m.vars = map[*types.Var]*Val{}
-	for v, va := range a.vars {
+	avars := make([]*types.Var, 0, len(a.vars))
+	for v := range a.vars {
+		avars = append(avars, v)
+	}
+	sort.Slice(avars, func(i, j int) bool {
+		if avars[i].Pos() != avars[j].Pos() {
+			return avars[i].Pos() < avars[j].Pos()
+		}
+		return avars[i].Name() < avars[j].Name()
+	})
+	for _, v := range avars {
+		va := a.vars[v]
 		vb, ok := b.vars[v]
 		if !ok {
 			continue
@@ -123,7 +135,7 @@ func (c *FuncCtx) merge2(a, b *State) *State {
 	for k := range b.heap {
 		keys[k] = true
 	}
-	for k := range keys {
+	for _, k := range sortedKeys(keys) {
 		ta, oka := a.heap[k]
 		tb, okb := b.heap[k]
 		if !oka {
